@@ -5,15 +5,14 @@
     [retain] closures with [&mut V]; [sub_stream] = what [recv()] yields; [mirror_task] = the task
     spawned by [mirror()]; [replay] = a consumer applying the events by hand).
 
-    Full statement (FALSE on the current code, see the two [_refuted] theorems):
+    Full statement (FALSE on the current code, see [C13_HashMap_retain_refuted]):
       forall init ops k md max, fits_from max init ops k = true ->
         mirror_ok init ops k md max /\ hand_ok init ops k md.
-    Proved: the same statement for every input outside two decidable classes,
+    Proved: the same statement for every input outside one decidable class,
       F4   a [retain] closure changes the value of an entry it keeps, after the subscription point
-           ([silent_free_from init ops k = false]) -- no event is emitted;
-      F11  incremental subscription of a non-empty map made after [done()]
-           ([late_incremental_at init ops k md = true]) -- the mirror task stops after one event;
-           consuming the events by hand is correct in this class. *)
+           ([silent_free_from init ops k = false]) -- no event is emitted.
+    (F11, incremental subscription of a non-empty map made after [done()], was repaired in /repo by
+    commit 290b96a; the model follows the repaired code and the class is no longer excluded.) *)
 From Remoc Require Import Lib.Base Robs.KeyMap Robs.HashMap Robs.HashMapProofs.
 From Remoc Require Gen.Api Gen.Variants.
 
@@ -23,13 +22,12 @@ From Remoc Require Gen.Api Gen.Variants.
     called, and is complete. *)
 Theorem C13_HashMap_mirror : forall init ops k md max,
   silent_free_from init ops k = true ->
-  late_incremental_at init ops k md = false ->
   fits_from max init ops k = true ->
   mirror_ok init ops k md max.
-Proof. exact mirror_ok_outside_known_classes. Qed.
+Proof. exact mirror_ok_outside_known_class. Qed.
 
 (** Consuming [take_initial()] and the [recv()] stream by hand gives the same contents and sees
-    [Done] iff [done()] was called (also for late incremental subscriptions; no size bound). *)
+    [Done] iff [done()] was called (no size bound). *)
 Theorem C13_HashMap_hand : forall init ops k md,
   silent_free_from init ops k = true -> hand_ok init ops k md.
 Proof. exact hand_ok_outside_known_class. Qed.
@@ -41,25 +39,24 @@ Theorem C13_HashMap_no_retain_mutation : forall init ops k,
 Proof. exact no_retain_mutation_sound. Qed.
 Theorem C13_HashMap_static : forall init ops k md max,
   no_retain_mutation ops = true ->
-  late_incremental_at init ops k md = false ->
   fits_from max init ops k = true ->
   mirror_ok init ops k md max /\ hand_ok init ops k md.
 Proof. exact no_retain_mutation_ok. Qed.
 
 (** F4: the statement fails for [retain(|_, v| { *v = 11; true })] on [{1: 10}]. *)
 Theorem C13_HashMap_retain_refuted : exists init ops k md max,
-  silent_free_from init ops k = false /\
-  late_incremental_at init ops k md = false /\ fits_from max init ops k = true /\
+  silent_free_from init ops k = false /\ fits_from max init ops k = true /\
   ~ mirror_ok init ops k md max /\ ~ hand_ok init ops k md.
 Proof. exists [(1, 10)], f4_ops, 0%nat, Snapshot, 100. exact retain_refuted. Qed.
 
-(** F11: [{1: 10, 2: 20}], [done()], then [subscribe_incremental().mirror()]: the mirror is wrong,
-    the hand-consumed stream is right. *)
-Theorem C13_HashMap_late_incremental_refuted : exists init ops k md max,
-  silent_free_from init ops k = true /\
-  late_incremental_at init ops k md = true /\ fits_from max init ops k = true /\
-  ~ mirror_ok init ops k md max /\ hand_ok init ops k md.
-Proof. exists [(1, 10); (2, 20)], f11_ops, 1%nat, Incremental, 100. exact late_incremental_refuted. Qed.
+(** The former F11 witness -- [{1: 10, 2: 20}], [done()], then [subscribe_incremental().mirror()] --
+    is now mirrored completely (it is an instance of [C13_HashMap_mirror]; shown as a computation). *)
+Example C13_HashMap_late_incremental_now_ok :
+  late_incremental_at [(1, 10); (2, 20)] f11_ops 1 Incremental = true /\
+  mirror_task (mirror_init Incremental (state_at [(1, 10); (2, 20)] f11_ops 1) 100)
+              (stream_at [(1, 10); (2, 20)] f11_ops 1 Incremental)
+  = ({| m_hm := [(1, 10); (2, 20)]; m_complete := true; m_done := true; m_max := 100 |}, None).
+Proof. exact late_incremental_now_ok. Qed.
 
 (** The modelled operations are exactly the public mutators found in the Rust source on this run
     (a new mutator or entry method breaks this proof). *)
@@ -86,7 +83,7 @@ Example C13_HashMap_nonvacuous :
               Retain {| d_keep := true; d_acc := ATouch |} [(2, {| d_keep := false; d_acc := AWrite 7 |})];
               Entry 1 [None] (EMatch [OInsert 12; OGetMut (AWrite 13)] ORemove VDrop);
               IterMut [(3, AWrite 33); (9, ATouch); (3, AWrite 0)]; GetMut 4 ATouch; Clear; Insert 6 60; MarkDone] in
-  silent_free_from init ops 2 = true /\ late_incremental_at init ops 2 Incremental = false /\
+  silent_free_from init ops 2 = true /\
   fits_from 5 init ops 2 = true /\ o_hm (final_state init ops) = [(6, 60)] /\
   stream_at init ops 2 Incremental =
     [ESet 1 10; ESet 2 20; ESet 3 30; ESet 4 40; ESet 5 51; EInitialComplete;
@@ -98,7 +95,7 @@ Print Assumptions C13_HashMap_hand.
 Print Assumptions C13_HashMap_no_retain_mutation.
 Print Assumptions C13_HashMap_static.
 Print Assumptions C13_HashMap_retain_refuted.
-Print Assumptions C13_HashMap_late_incremental_refuted.
+Print Assumptions C13_HashMap_late_incremental_now_ok.
 Print Assumptions C13_HashMap_api_covered.
 Print Assumptions C13_HashMap_api_complete.
 Print Assumptions C13_HashMap_events_covered.
